@@ -147,6 +147,16 @@ def file_cases(draw):
         alphabet = REPERTOIRE[family]
         codecs = [family, "utf-8", "utf-8-sig", "utf-16"]
     spec = draw(specs(alphabet))
+    if family == "wide" and draw(st.integers(0, 3)) == 0:
+        # characters str.splitlines() breaks on but a file / StringIO does not: they are ordinary characters of the
+        # text and must survive every channel (placed inside words of values, descriptions and ~Other text only)
+        exotic = draw(st.sampled_from(["\u2028", "\u2029", "\x85", "\x0b", "\x0c", "\x1c", "\x1d", "\x1e"]))
+        for sec in spec["sections"]:
+            for ln in sec["lines"]:
+                if ln["t"] == "item" and sec["kind"] in ("W", "P") and ln["m"] not in ("STRT", "STOP", "STEP", "NULL") and draw(st.booleans()):
+                    ln["d"] = "ab" + exotic + "cd" + (" " + ln["d"] if ln["d"] else "")
+                elif ln["t"] == "text" and draw(st.booleans()):
+                    ln["text"] = "no" + exotic + "te " + ln["text"]
     variants = []
     for _ in range(draw(st.integers(2, 5))):
         ch = draw(st.sampled_from(["path", "Path", "fileobj", "stringio", "string"]))
